@@ -98,7 +98,9 @@ func runStop(c *core.Ctx, s *run.Session, l *hist.Layout, start hist.Pos, scn st
 		}
 		scr := &sim.Script{End: sim.EndIdle, Faults: map[int]sim.Fault{at: {Kind: sim.FHold}}}
 		s.M.SetScripts(scr)
-		rn := s.Start(run.NoFaults(), nil)
+		hs0 := run.NoFaults()
+		hs0.InlineError = o.InlineError
+		rn := s.Start(hs0, nil)
 		// wait until the master is parked and everything sent so far was consumed
 		state := "unknown"
 		for i := 0; i < 4000; i++ {
@@ -130,6 +132,7 @@ func runStop(c *core.Ctx, s *run.Session, l *hist.Layout, start hist.Pos, scn st
 		s.M.SetScripts(scr)
 		hs := run.NoFaults()
 		hs.BlockAt = spec.At
+		hs.InlineError = o.InlineError
 		rn := s.Start(hs, nil)
 		blocked := false
 		select {
@@ -170,7 +173,9 @@ func runStop(c *core.Ctx, s *run.Session, l *hist.Layout, start hist.Pos, scn st
 		if total < 1 {
 			total = 1
 		}
-		ob.Res = s.Attempt(run.NoFaults(), &xport.Options{FailReadAt: int64(100 + spec.At%total)}, maxWait)
+		hs1 := run.NoFaults()
+		hs1.InlineError = o.InlineError
+		ob.Res = s.Attempt(hs1, &xport.Options{FailReadAt: int64(100 + spec.At%total)}, maxWait)
 		finishObs(s, ob, o)
 		return ob
 	}
@@ -194,7 +199,9 @@ func finishObs(s *run.Session, ob *attemptObs, o attemptOpts) {
 		return
 	}
 	errCalls := func() {
-		if o.ErrorCalls >= 1 {
+		if o.InlineError && ob.Res.InlineErrDone {
+			ob.Err1 = &run.ErrorResult{Err: ob.Res.InlineErr, Verdict: run.Returned}
+		} else if o.ErrorCalls >= 1 {
 			ob.Err1 = s.CallError(maxWait)
 		}
 		if o.ErrorCalls >= 2 && ob.Err1.Verdict == run.Returned {
